@@ -25,7 +25,7 @@ MAX_PEEL = 3
 
 
 class Obligation:
-    __slots__ = ('kind', 'fn', 'inst', 'where', 'stack', 'ok', 'count', 'detail', 'key', 'objdesc')
+    __slots__ = ('kind', 'fn', 'inst', 'where', 'stack', 'ok', 'count', 'detail', 'key', 'objdesc', 'flagloop')
 
     def __init__(self, kind, fn, inst, where, stack, key):
         self.kind = kind
@@ -38,11 +38,12 @@ class Obligation:
         self.detail = None
         self.key = key
         self.objdesc = None
+        self.flagloop = None
 
     def as_dict(self):
         return {'kind': self.kind, 'function': self.fn, 'where': self.where, 'objdesc': self.objdesc,
                 'call_stack': list(self.stack), 'ok': self.ok,
-                'states_checked': self.count, 'detail': self.detail}
+                'states_checked': self.count, 'detail': self.detail, 'flagloop': self.flagloop}
 
 
 class Interp:
@@ -89,6 +90,11 @@ class Interp:
         if not ok:
             if ob.ok:
                 ob.detail = detail
+                if inst is not None and kind.startswith('bounds:'):
+                    for (L, ph) in inst.fn.flag_loops():
+                        if inst.block in L['blocks']:
+                            ob.flagloop = '%s: the loop at %s is steered by the flag %s computed in the previous iteration' % (
+                                inst.fn.srcname or inst.fn.name, L['header'].term.where(), ph.name or ph.id)
             ob.ok = False
 
     # ------------------------------------------------------------------
@@ -313,6 +319,9 @@ class Interp:
                 r = self.assemble_const(ov, p.off.c, size, ty)
                 if r is not None:
                     return r
+                r = self.split_cell(st, p, ov, size, ty)
+                if r is not None:
+                    return r
                 return self.top_of_type(st, ty, 'ld')
             v = self.initial_content(st, p, ty, inst)
             st.mem[key] = v
@@ -322,6 +331,30 @@ class Interp:
             if o == p.obj and sz == size and st.cons.entails_eq(p.off, off):
                 return v
         return self.initial_content_var(st, p, ty, inst)
+
+    def split_cell(self, st, p, ov, size, ty):
+        """an aligned part of ONE wider integer cell is read (a struct passed by value arrives as one i64 and is read field by
+        field): the wide cell is replaced, once, by its little-endian parts - fresh unsigned symbols that add up to the
+        wide value - so that every later read of the same field is the same value"""
+        if len(ov) != 1 or ty.get('k') != 'int' or size not in (1, 2, 4):
+            return None
+        (coff, csz, v) = ov[0]
+        if not isinstance(v, IntVal) or csz not in (2, 4, 8) or csz % size or (p.off.c - coff) % size or \
+                not (coff <= p.off.c and p.off.c + size <= coff + csz) or ty['bits'] != 8 * size:
+            return None
+        parts = []
+        for k in range(csz // size):
+            parts.append(st.fresh_int(8 * size, False, 'part'))
+        wide = st.as_u(v)
+        if wide is not None:
+            total = Lin(0)
+            for k, x in enumerate(parts):
+                total = total + x.u * (1 << (8 * size * k))
+            st.cons.add_eq(wide, total)
+        del st.mem[(p.obj, coff, csz)]
+        for k, x in enumerate(parts):
+            st.mem[(p.obj, coff + k * size, size)] = x
+        return st.mem[(p.obj, p.off.c, size)]
 
     def assemble_const(self, cells, off, size, ty):
         if ty.get('k') != 'int':
